@@ -29,7 +29,18 @@ func Setup() {
 		panic(err)
 	}
 	call.CallOverrideFN(Base, "trace!", trace_BANG)
+	// an embedding program may hold several environments: another one is loaded after Base; nothing a program
+	// does on Base may end up there (load-file evaluates through the eval builtin of the environment it was loaded into)
+	Decoy = env.NewEnv()
+	if err := nscore.Load(Decoy); err != nil {
+		panic(err)
+	}
+	if err := nscore.LoadInput(Decoy); err != nil {
+		panic(err)
+	}
 }
+
+var Decoy EnvType
 
 // filler: layout between tokens: at least one separator, then 0..max symbolic units.
 func filler(tag string, max int, need bool) string {
